@@ -63,6 +63,8 @@ def r_ops():
     return ops
 
 
+from ..eexpr import expr_jobs
+
 def make_jobs(ctx):
     jobs = []
     jobs += rjobs(ctx, r_ops(), ["wasm_int.h", "wasm_float.h"], "R", variant="plain", ub_checks=True)
@@ -77,6 +79,7 @@ def make_jobs(ctx):
         for p in operator_contexts(base, op, pt, rt, spec, trap, gmap=pm.g, wasm_name=op, eq=eq, libm=libm, solver=solver):
             pm.add(p, split_nan=(op == "f64.div"))
     jobs += pm.jobs(ctx, SPECS, "G")
+    jobs += expr_jobs(ctx, ["unary", "prefix", "infix"])
     return jobs
 
 
